@@ -13,6 +13,10 @@ use std::ops::Range;
 pub use crate::protocol::per::unaligned::buffer::Bits;
 pub use crate::protocol::per::unaligned::ScopedBitRead;
 
+/// Lengths from this value on are transmitted in fragments
+/// (ITU-T X.691 | ISO/IEC 8825-2:2015, chapter 11.9.3.8)
+const LENGTH_16K: u64 = 16 * 1024;
+
 #[derive(Debug, Clone)]
 pub enum Scope {
     OptBitField(Range<usize>),
@@ -368,6 +372,23 @@ impl UperWriter {
         upper_limit: u64,
         len: u64,
     ) -> Result<bool, Error> {
+        self.write_extensible_bit_and_length_fragment_or_err(extensible, min, max, upper_limit, len)
+            .map(|(out_of_range, _first_fragment)| out_of_range)
+    }
+
+    /// Like [`Self::write_extensible_bit_and_length_or_err`], but additionally returns the length
+    /// of the first fragment, if the given length is too large to be transmitted at once
+    /// (ITU-T X.691 | ISO/IEC 8825-2:2015, chapter 11.9.3.8). In that case the elements must be
+    /// written with [`Self::write_fragments`].
+    #[inline]
+    fn write_extensible_bit_and_length_fragment_or_err(
+        &mut self,
+        extensible: bool,
+        min: Option<u64>,
+        max: Option<u64>,
+        upper_limit: u64,
+        len: u64,
+    ) -> Result<(bool, Option<u64>), Error> {
         let unwrapped_min = const_unwrap_or!(min, 0);
         let unwrapped_max = const_unwrap_or!(max, upper_limit);
         let out_of_range = len < unwrapped_min || len > unwrapped_max;
@@ -376,17 +397,52 @@ impl UperWriter {
             self.bits.write_bit(out_of_range)?;
         }
 
-        if out_of_range {
+        let first_fragment = if out_of_range {
             if !extensible {
                 return Err(ErrorKind::SizeNotInRange(len, unwrapped_min, unwrapped_max).into());
             } else {
-                self.bits.write_length_determinant(None, None, len)?;
+                self.bits.write_length_determinant(None, None, len)?
             }
         } else {
-            self.bits.write_length_determinant(min, max, len)?;
+            self.bits.write_length_determinant(min, max, len)?
+        };
+
+        Ok((out_of_range, first_fragment))
+    }
+
+    /// Calls the given function for the index range of each fragment. Without fragmentation
+    /// (`first_fragment` is `None`) this is one call for all elements. Otherwise the length
+    /// determinant of each further fragment is written in front of its elements, the last fragment
+    /// is shorter than 16K elements (and might be empty).
+    #[inline]
+    fn write_fragments<F: FnMut(&mut Self, Range<usize>) -> Result<(), Error>>(
+        &mut self,
+        first_fragment: Option<u64>,
+        len: usize,
+        mut f: F,
+    ) -> Result<(), Error> {
+        let mut written = first_fragment.map(|l| l as usize).unwrap_or(len);
+        f(self, 0..written)?;
+
+        if first_fragment.is_some() {
+            loop {
+                let remaining = len - written;
+                let fragment = self
+                    .bits
+                    .write_length_determinant(None, None, remaining as u64)?
+                    .map(|l| l as usize)
+                    .unwrap_or(remaining);
+
+                f(self, written..written + fragment)?;
+                written += fragment;
+
+                if (fragment as u64) < LENGTH_16K {
+                    break;
+                }
+            }
         }
 
-        Ok(out_of_range)
+        Ok(())
     }
 }
 
@@ -448,7 +504,7 @@ impl Writer for UperWriter {
     ) -> Result<(), Self::Error> {
         self.write_bit_field_entry(false, true)?;
         self.scope_stashed(|w| {
-            w.write_extensible_bit_and_length_or_err(
+            let (_, first_fragment) = w.write_extensible_bit_and_length_fragment_or_err(
                 C::EXTENSIBLE,
                 C::MIN,
                 C::MAX,
@@ -457,10 +513,12 @@ impl Writer for UperWriter {
             )?;
 
             w.scope_stashed(|w| {
-                for value in slice {
-                    T::write_value(w, value)?;
-                }
-                Ok(())
+                w.write_fragments(first_fragment, slice.len(), |w, range| {
+                    for value in &slice[range] {
+                        T::write_value(w, value)?;
+                    }
+                    Ok(())
+                })
             })
         })
     }
@@ -618,20 +676,22 @@ impl Writer for UperWriter {
         self.with_buffer(|w| {
             Error::ensure_string_valid(Charset::Ia5, value)?;
 
-            w.write_extensible_bit_and_length_or_err(
+            // all valid characters are represented by a single byte
+            let (_, first_fragment) = w.write_extensible_bit_and_length_fragment_or_err(
                 C::EXTENSIBLE,
                 C::MIN,
                 C::MAX,
                 u64::MAX,
-                value.chars().count() as u64,
+                value.len() as u64,
             )?;
 
-            for char in value.chars().map(|c| c as u8) {
-                // 7 bits
-                w.bits.write_bits_with_offset(&[char], 1)?;
-            }
-
-            Ok(())
+            w.write_fragments(first_fragment, value.len(), |w, range| {
+                for char in &value.as_bytes()[range] {
+                    // 7 bits
+                    w.bits.write_bits_with_offset(&[*char], 1)?;
+                }
+                Ok(())
+            })
         })
     }
 
@@ -644,23 +704,25 @@ impl Writer for UperWriter {
         self.with_buffer(|w| {
             Error::ensure_string_valid(Charset::Numeric, value)?;
 
-            w.write_extensible_bit_and_length_or_err(
+            // all valid characters are represented by a single byte
+            let (_, first_fragment) = w.write_extensible_bit_and_length_fragment_or_err(
                 C::EXTENSIBLE,
                 C::MIN,
                 C::MAX,
                 u64::MAX,
-                value.chars().count() as u64,
+                value.len() as u64,
             )?;
 
-            for char in value.chars().map(|c| c as u8) {
-                let char = match char - 32 {
-                    0 => 0,
-                    c => c - 15,
-                };
-                w.bits.write_bits_with_offset(&[char], 4)?;
-            }
-
-            Ok(())
+            w.write_fragments(first_fragment, value.len(), |w, range| {
+                for char in &value.as_bytes()[range] {
+                    let char = match *char - 32 {
+                        0 => 0,
+                        c => c - 15,
+                    };
+                    w.bits.write_bits_with_offset(&[char], 4)?;
+                }
+                Ok(())
+            })
         })
     }
 
@@ -673,19 +735,21 @@ impl Writer for UperWriter {
         self.with_buffer(|w| {
             Error::ensure_string_valid(Charset::Printable, value)?;
 
-            w.write_extensible_bit_and_length_or_err(
+            // all valid characters are represented by a single byte
+            let (_, first_fragment) = w.write_extensible_bit_and_length_fragment_or_err(
                 C::EXTENSIBLE,
                 C::MIN,
                 C::MAX,
                 u64::MAX,
-                value.chars().count() as u64,
+                value.len() as u64,
             )?;
 
-            for char in value.chars() {
-                w.bits.write_bits_with_offset(&[char as u8], 1)?;
-            }
-
-            Ok(())
+            w.write_fragments(first_fragment, value.len(), |w, range| {
+                for char in &value.as_bytes()[range] {
+                    w.bits.write_bits_with_offset(&[*char], 1)?;
+                }
+                Ok(())
+            })
         })
     }
 
@@ -698,19 +762,21 @@ impl Writer for UperWriter {
         self.with_buffer(|w| {
             Error::ensure_string_valid(Charset::Visible, value)?;
 
-            w.write_extensible_bit_and_length_or_err(
+            // all valid characters are represented by a single byte
+            let (_, first_fragment) = w.write_extensible_bit_and_length_fragment_or_err(
                 C::EXTENSIBLE,
                 C::MIN,
                 C::MAX,
                 u64::MAX,
-                value.chars().count() as u64,
+                value.len() as u64,
             )?;
 
-            for char in value.chars() {
-                w.bits.write_bits_with_offset(&[char as u8], 1)?;
-            }
-
-            Ok(())
+            w.write_fragments(first_fragment, value.len(), |w, range| {
+                for char in &value.as_bytes()[range] {
+                    w.bits.write_bits_with_offset(&[*char], 1)?;
+                }
+                Ok(())
+            })
         })
     }
 
@@ -830,6 +896,54 @@ impl<B: ScopedBitRead> UperReader<B> {
                 result.clone(),
             ));
         result
+    }
+
+    /// Reads the optional extensible bit and the (first) length determinant. Additionally returns
+    /// whether the length is transmitted in the unconstrained form, which is the only form that is
+    /// fragmented for 16K elements and more (see [`Self::read_fragments`]).
+    #[inline]
+    #[allow(clippy::redundant_pattern_matching)] // allow for const_*!
+    fn read_extensible_bit_and_length(
+        &mut self,
+        extensible: bool,
+        min: Option<u64>,
+        max: Option<u64>,
+    ) -> Result<(u64, bool), Error> {
+        if extensible && self.bits.read_bit()? {
+            Ok((self.read_length_determinant(None, None)?, true))
+        } else {
+            Ok((
+                self.read_length_determinant(min, max)?,
+                const_is_none!(min) && const_is_none!(max),
+            ))
+        }
+    }
+
+    /// Calls the given function with the count of elements of each fragment. Without fragmentation
+    /// this is one call with the given length. Otherwise further length determinants follow the
+    /// elements of each fragment until a fragment is shorter than 16K elements
+    /// (ITU-T X.691 | ISO/IEC 8825-2:2015, chapter 11.9.3.8).
+    #[inline]
+    fn read_fragments<F: FnMut(&mut Self, u64) -> Result<(), Error>>(
+        &mut self,
+        first_fragment: u64,
+        unconstrained_form: bool,
+        mut f: F,
+    ) -> Result<(), Error> {
+        f(self, first_fragment)?;
+
+        if unconstrained_form && first_fragment >= LENGTH_16K {
+            loop {
+                let fragment = self.read_length_determinant(None, None)?;
+                f(self, fragment)?;
+
+                if fragment < LENGTH_16K {
+                    break;
+                }
+            }
+        }
+
+        Ok(())
     }
 
     #[inline]
@@ -1074,24 +1188,19 @@ impl<B: ScopedBitRead> Reader for UperReader<B> {
         let _ = self.read_bit_field_entry(false)?;
         #[allow(clippy::let_and_return)]
         self.with_buffer(|r| {
-            let len = if C::EXTENSIBLE {
-                let extensible = r.bits.read_bit()?;
-                if extensible {
-                    r.read_length_determinant(None, None)?
-                } else {
-                    r.read_length_determinant(C::MIN, C::MAX)?
-                }
-            } else {
-                r.read_length_determinant(C::MIN, C::MAX)?
-            };
+            let (len, unconstrained_form) =
+                r.read_extensible_bit_and_length(C::EXTENSIBLE, C::MIN, C::MAX)?;
 
             if len > 0 {
                 r.scope_stashed(|r| {
                     // do not trust the transmitted length for the allocation
                     let mut vec = Vec::with_capacity((len as usize).min(r.bits.remaining()));
-                    for _ in 0..len {
-                        vec.push(T::read_value(r)?);
-                    }
+                    r.read_fragments(len, unconstrained_form, |r, count| {
+                        for _ in 0..count {
+                            vec.push(T::read_value(r)?);
+                        }
+                        Ok(())
+                    })?;
                     Ok(vec)
                 })
             } else {
@@ -1285,21 +1394,23 @@ impl<B: ScopedBitRead> Reader for UperReader<B> {
         let _ = self.read_bit_field_entry(false)?;
         #[allow(clippy::let_and_return)]
         let result = self.with_buffer(|r| {
-            let len = if C::EXTENSIBLE && r.bits.read_bit()? {
-                r.read_length_determinant(None, None)?
-            } else {
-                r.read_length_determinant(C::MIN, C::MAX)?
-            };
+            let (len, unconstrained_form) =
+                r.read_extensible_bit_and_length(C::EXTENSIBLE, C::MIN, C::MAX)?;
 
-            // every character takes at least one bit, do not allocate for more than there is
-            if len > r.bits.remaining() as u64 {
-                return Err(ErrorKind::EndOfStream.into());
-            }
+            let mut buffer = Vec::new();
+            r.read_fragments(len, unconstrained_form, |r, count| {
+                // every character takes at least one bit, do not allocate for more than there is
+                if count > r.bits.remaining() as u64 {
+                    return Err(ErrorKind::EndOfStream.into());
+                }
 
-            let mut buffer = vec![0u8; len as usize];
-            for i in 0..len as usize {
-                r.bits.read_bits_with_offset(&mut buffer[i..i + 1], 1)?;
-            }
+                let start = buffer.len();
+                buffer.resize(start + count as usize, 0u8);
+                for i in start..buffer.len() {
+                    r.bits.read_bits_with_offset(&mut buffer[i..i + 1], 1)?;
+                }
+                Ok(())
+            })?;
 
             String::from_utf8(buffer).map_err(|e| ErrorKind::FromUtf8Error(e).into())
         });
@@ -1320,25 +1431,27 @@ impl<B: ScopedBitRead> Reader for UperReader<B> {
         let _ = self.read_bit_field_entry(false)?;
         #[allow(clippy::let_and_return)]
         let result = self.with_buffer(|r| {
-            let len = if C::EXTENSIBLE && r.bits.read_bit()? {
-                r.read_length_determinant(None, None)?
-            } else {
-                r.read_length_determinant(C::MIN, C::MAX)?
-            };
+            let (len, unconstrained_form) =
+                r.read_extensible_bit_and_length(C::EXTENSIBLE, C::MIN, C::MAX)?;
 
-            // every character takes at least one bit, do not allocate for more than there is
-            if len > r.bits.remaining() as u64 {
-                return Err(ErrorKind::EndOfStream.into());
-            }
-
-            let mut buffer = vec![0u8; len as usize];
-            for i in 0..len as usize {
-                r.bits.read_bits_with_offset(&mut buffer[i..i + 1], 4)?;
-                match buffer[i] {
-                    0_u8 => buffer[i] = 32_u8,
-                    c => buffer[i] = 32_u8 + 15 + c,
+            let mut buffer = Vec::new();
+            r.read_fragments(len, unconstrained_form, |r, count| {
+                // every character takes at least one bit, do not allocate for more than there is
+                if count > r.bits.remaining() as u64 {
+                    return Err(ErrorKind::EndOfStream.into());
                 }
-            }
+
+                let start = buffer.len();
+                buffer.resize(start + count as usize, 0u8);
+                for i in start..buffer.len() {
+                    r.bits.read_bits_with_offset(&mut buffer[i..i + 1], 4)?;
+                    match buffer[i] {
+                        0_u8 => buffer[i] = 32_u8,
+                        c => buffer[i] = 32_u8 + 15 + c,
+                    }
+                }
+                Ok(())
+            })?;
 
             String::from_utf8(buffer).map_err(|e| ErrorKind::FromUtf8Error(e).into())
         });
@@ -1361,21 +1474,22 @@ impl<B: ScopedBitRead> Reader for UperReader<B> {
         let _ = self.read_bit_field_entry(false)?;
         #[allow(clippy::let_and_return)]
         let result = self.with_buffer(|r| {
-            let len = if C::EXTENSIBLE && r.bits.read_bit()? {
-                r.read_length_determinant(None, None)?
-            } else {
-                r.read_length_determinant(C::MIN, C::MAX)?
-            };
+            let (len, unconstrained_form) =
+                r.read_extensible_bit_and_length(C::EXTENSIBLE, C::MIN, C::MAX)?;
 
-            // every character takes at least one bit, do not allocate for more than there is
-            if len > r.bits.remaining() as u64 {
-                return Err(ErrorKind::EndOfStream.into());
-            }
+            let mut buffer = Vec::new();
+            r.read_fragments(len, unconstrained_form, |r, count| {
+                // every character takes at least one bit, do not allocate for more than there is
+                if count > r.bits.remaining() as u64 {
+                    return Err(ErrorKind::EndOfStream.into());
+                }
 
-            let mut buffer = vec![0u8; len as usize];
-            buffer
-                .chunks_exact_mut(1)
-                .try_for_each(|chunk| r.bits.read_bits_with_offset(chunk, 1))?;
+                let start = buffer.len();
+                buffer.resize(start + count as usize, 0u8);
+                buffer[start..]
+                    .chunks_exact_mut(1)
+                    .try_for_each(|chunk| r.bits.read_bits_with_offset(chunk, 1))
+            })?;
 
             String::from_utf8(buffer).map_err(|e| ErrorKind::FromUtf8Error(e).into())
         });
@@ -1396,21 +1510,22 @@ impl<B: ScopedBitRead> Reader for UperReader<B> {
         let _ = self.read_bit_field_entry(false)?;
         #[allow(clippy::let_and_return)]
         let result = self.with_buffer(|r| {
-            let len = if C::EXTENSIBLE && r.bits.read_bit()? {
-                r.read_length_determinant(None, None)?
-            } else {
-                r.read_length_determinant(C::MIN, C::MAX)?
-            };
+            let (len, unconstrained_form) =
+                r.read_extensible_bit_and_length(C::EXTENSIBLE, C::MIN, C::MAX)?;
 
-            // every character takes at least one bit, do not allocate for more than there is
-            if len > r.bits.remaining() as u64 {
-                return Err(ErrorKind::EndOfStream.into());
-            }
+            let mut buffer = Vec::new();
+            r.read_fragments(len, unconstrained_form, |r, count| {
+                // every character takes at least one bit, do not allocate for more than there is
+                if count > r.bits.remaining() as u64 {
+                    return Err(ErrorKind::EndOfStream.into());
+                }
 
-            let mut buffer = vec![0u8; len as usize];
-            buffer
-                .chunks_exact_mut(1)
-                .try_for_each(|chunk| r.bits.read_bits_with_offset(chunk, 1))?;
+                let start = buffer.len();
+                buffer.resize(start + count as usize, 0u8);
+                buffer[start..]
+                    .chunks_exact_mut(1)
+                    .try_for_each(|chunk| r.bits.read_bits_with_offset(chunk, 1))
+            })?;
 
             String::from_utf8(buffer).map_err(|e| ErrorKind::FromUtf8Error(e).into())
         });
